@@ -412,7 +412,7 @@ def r4_graph_complete(c, facts):
                 continue
             if set(to_cb) == set(skip) and len(succ) == len(to_cb):
                 continue
-            names = {P.strip(n).split('::')[-1] for n, _, _ in MF.slice_back(df, sw['discr']['l'], didx)['calls']} - {'lookup', 'clone', 'as_ref', 'deref', 'new', 'ident', 'qualifier', 'map', 'from'}
+            names = {P.strip(n).split('::')[-1] for n, _, _ in MF.slice_back(df, sw['discr']['l'], didx)['calls']} - {'lookup', 'clone', 'as_ref', 'deref', 'new', 'ident', 'qualifier', 'map', 'from', 'cloned', 'copied', 'ok_or', 'ok_or_else', 'branch', 'from_residual'}
             extra |= names
         if extra:
             c.bad(R, 'connect-conditional-on:%s' % ','.join(sorted(extra)), 'define_variable adds the dependency edge only under a condition on %s: uses for which it is false add no edge, so a cycle through them is never detected (accepted alias cycles, or an evaluation that never ends)' % sorted(extra))
